@@ -138,7 +138,7 @@ class Prov:
                 out |= self.expand(fn, sc, expr, use_node, 0, stop)
             finally:
                 self._choice = None
-        return out
+        return {_reparse(x) for x in out}
 
     _multi = None
     _choice = None
@@ -312,3 +312,11 @@ def _substitute(expr, mapping):
         from .decide import simplify_text
         s = simplify_text(s)
     return s
+
+
+def _reparse(s):
+    """drop redundant parentheses"""
+    try:
+        return ast.unparse(ast.parse(s, mode="eval").body)
+    except SyntaxError:
+        return s
